@@ -1032,8 +1032,12 @@ fn search_cert(obs: &[&str]) {
         let mut w = match st.try_clone() { Ok(w) => w, Err(_) => return out };
         let mut req = json!({"method": format!("org.varlink.certification.{}", method), "parameters": params});
         if more { req["more"] = json!(true); }
-        let oneway = method.ends_with("!oneway");
-        if oneway { req["method"] = json!(format!("org.varlink.certification.{}", method.trim_end_matches("!oneway"))); req["oneway"] = json!(true); }
+        // `Name!flag+flag`: extra call-mode flags
+        let mut oneway = false;
+        if let Some((name, flags)) = method.split_once('!') {
+            req["method"] = json!(format!("org.varlink.certification.{}", name));
+            for f in flags.split('+') { req[f] = json!(true); if f == "oneway" { oneway = true; } }
+        }
         let mut b = serde_json::to_vec(&req).unwrap(); b.push(0);
         if w.write_all(&b).is_err() { return out; }
         let mut r = BufReader::new(st);
@@ -1103,6 +1107,49 @@ fn search_cert(obs: &[&str]) {
                 }
             }
         }
+        // deviating call mode / deviating value at the RIGHT position: a fresh client per probe (the gate advances the step before the request is checked)
+        {
+            let walk_to = |e: usize| -> Option<String> {
+                let st = call("Start", json!({}), false);
+                let id = st.get(0).and_then(|r| r["parameters"]["client_id"].as_str()).unwrap_or("").to_string();
+                if id.is_empty() { return None; }
+                for k in 0..e {
+                    let rs = if k == 10 { call(&format!("{}!oneway", names[k]), with_id(&args[k], &id), false) } else { call(&names[k], with_id(&args[k], &id), k == 9) };
+                    if is_err(&rs) { return None; }
+                }
+                Some(id)
+            };
+            let success = |rs: &Vec<Value>| !rs.is_empty() && rs.iter().all(|r| r["error"].is_null());
+            for e in 0..names.len() {
+                if e == 10 { continue; }   // Test11 is oneway: no reply either way
+                let modes: Vec<(&str, bool)> = if e == 9 { vec![("", false), ("!upgrade", true), ("!upgrade", false)] } else { vec![("", true), ("!upgrade", false), ("!upgrade", true)] };
+                for (suffix, more) in modes {
+                    explored += 1;
+                    if let Some(id) = walk_to(e) {
+                        let rs = call(&format!("{}{}", names[e], suffix), with_id(&args[e], &id), more);
+                        if success(&rs) {
+                            found.entry("mode").or_insert(json!({"what": "a step called in a deviating call mode got its success reply", "step": names[e], "flags": format!("more={} {}", more, suffix), "replies": rs, "expected": "an error reply"}));
+                        }
+                    }
+                }
+                // a deviating value: the first parameter that is not the client id is changed
+                if let Some(obj) = args[e].as_object() {
+                    if let Some((k0, v0)) = obj.iter().next() {
+                        let dev = match v0 { Value::Bool(b) => json!(!b), Value::Number(n) if n.is_i64() => json!(n.as_i64().unwrap() + 1), Value::Number(n) => json!(n.as_f64().unwrap() + 0.5),
+                            Value::String(x) => json!(format!("{}x", x)), Value::Array(a) => { let mut a = a.clone(); a.push(json!("extra")); json!(a) },
+                            Value::Object(o) => { let mut o = o.clone(); let kk = o.keys().next().cloned(); if let Some(kk) = kk { o.remove(&kk); } json!(o) }, Value::Null => json!(1) };
+                        explored += 1;
+                        if let Some(id) = walk_to(e) {
+                            let mut a = with_id(&args[e], &id); a[k0.as_str()] = dev.clone();
+                            let rs = call(&names[e], a, e == 9);
+                            if success(&rs) {
+                                found.entry("value").or_insert(json!({"what": "a step called with a deviating value got its success reply", "step": names[e], "parameter": k0, "sent": dev, "replies": rs, "expected": "an error reply"}));
+                            }
+                        }
+                    }
+                }
+            }
+        }
         // every position E, every other step K
         for e in 0..names.len() {
             let st = call("Start", json!({}), false);
@@ -1128,9 +1175,9 @@ fn search_cert(obs: &[&str]) {
     let _ = child.kill(); let _ = child.wait();
     let _ = std::fs::remove_dir_all(&dir);
     for ob in obs {
-        let class = match *ob { "C19.gate" => "gate", "C19.step" | "C19.own-id" => "step", _ => "none" };
+        let class = match *ob { "C19.gate" => "gate", "C19.step" | "C19.own-id" => "step", "C19.mode" => "mode", "C19.value" => "value", _ => "none" };
         // any failing history is a counterexample to the property; the obligation's own class is preferred
-        let f = found.get(class).or_else(|| found.get("gate")).or_else(|| found.get("step"));
+        let f = found.get(class).or_else(|| found.get("gate")).or_else(|| found.get("step")).or_else(|| found.get("mode")).or_else(|| found.get("value"));
         emit(ob, f.is_some(), explored, f.cloned().unwrap_or(Value::Null));
     }
 }
@@ -1171,7 +1218,7 @@ fn main() {
     if m("C03.info") { search_info_dups("C03.info"); }
     let cli: Vec<&str> = ["C20.split", "C20.status", "C20.print", "C20.no-panic"].iter().cloned().filter(|o| m(o)).collect();
     if !cli.is_empty() { search_cli(&cli); }
-    let cert: Vec<&str> = ["C19.gate", "C19.step", "C19.own-id"].iter().cloned().filter(|o| m(o)).collect();
+    let cert: Vec<&str> = ["C19.gate", "C19.step", "C19.own-id", "C19.mode", "C19.value"].iter().cloned().filter(|o| m(o)).collect();
     if !cert.is_empty() { search_cert(&cert); }
     let wr: Vec<&str> = ["C17.wire-attrs"].iter().cloned().filter(|o| m(o)).collect();
     if !wr.is_empty() { search_wire_roundtrip(&wr); }
